@@ -204,6 +204,8 @@ def main():
             chk.analysed["field_aliases"] = ["%s read as `%s` (renamed field: same position and type)" % x for x in f.field_aliases]
         if f.function_aliases:
             chk.analysed["function_aliases"] = ["%s read as %s (renamed: same module/impl, same signature, unique)" % x for x in f.function_aliases]
+        if getattr(f, "literal_consts", None):
+            chk.analysed["literal_constants_folded"] = ["%s = %r" % (k, v) for k, v in sorted(f.literal_consts.items())]
         if getattr(f, "inlined_helpers", None):
             chk.analysed["inlined_helpers"] = ["%s read at its call site(s) in %s (a function the reference tree does not have: private, non-recursive, not used as a value)" % (n, ", ".join(cs)) for n, cs in f.inlined_helpers]
         if f.closure_aliases:
